@@ -22,6 +22,7 @@ import drive_denoise as dd
 
 TH_SESSION = ['RB.Denoise.c20_restore_once', 'RB.Denoise.c20_noD_silent',
               'RB.Denoise.c20_restore_after_processes_partial', 'RB.Denoise.c20_no_result_no_restore']
+TH_PAR = ['RB.Denoise.c20_par_restore_once', 'RB.Denoise.c20_interleave_perm']
 TH_WRAP = ['RB.Denoise.c20_wrap_spec', 'RB.Denoise.c20_wrap_none', 'RB.Denoise.c20_caps_as_reported']
 TH_SHIELD = ['RB.Denoise.c20_shield_range', 'RB.Denoise.c20_shield_range_real', 'RB.Denoise.c20_shieldLo_is_floor_log',
              'RB.Denoise.c20_shield_within_cores']
@@ -141,15 +142,16 @@ def trace_oracle(ck, inp, sc, trace, sudo, ending, num_cores):
         ri = max(i for i, t in enumerate(trace) if t['t'] == 'restore')
         late_starts = [t for t in trace[ri:] if t['t'] == 'start']
         if late_starts:
-            ck.oracle_fail('restore_after_last_start', inp, {'trace': trace}, {'path': sc['path']})
+            ck.oracle_fail('restore_after_last_start', inp, {'trace': trace},
+                           dict({'path': sc['path']}, **({'scheduler': 'parallel'} if sc['kind'] == 'parallel' else {})))
         open_at_restore = set(t['i'] for t in trace[:ri] if t['t'] == 'start') - \
             set(t['i'] for t in trace[:ri] if t['t'] == 'stop')
         if open_at_restore:
             ck.oracle_fail('restore_after_processes_ended', inp,
                            {'running_at_restore': sorted(open_at_restore), 'trace': trace},
-                           {'path': 'interrupt' if sc['path'] in ('interrupt', 'terminate') else sc['path'],
-                            'cause': 'child-not-killed' if not any(t['t'] == 'kill' for t in trace[:ri])
-                            else 'other'})
+                           dict({'path': 'interrupt' if sc['path'] in ('interrupt', 'terminate') else sc['path'],
+                                 'cause': 'child-not-killed' if not any(t['t'] == 'kill' for t in trace[:ri])
+                                 else 'other'}, **({'scheduler': 'parallel'} if sc['kind'] == 'parallel' else {})))
         r = [t for t in trace if t['t'] == 'restore'][0]
         if r['without_nice'] != (not granted(sc['report'], 'nice')) or \
                 r['without_shielding'] != (not granted(sc['report'], 'shield')):
@@ -424,6 +426,117 @@ def check_cli(ck, scenarios):
                         {'trace': head, 'ending': ending}, ans, TH_SESSION)
 
 
+# ------------------------------------------------------- parallel scheduler
+def gen_parallel_scenarios(ck, n):
+    rng = ck.rng
+    reps = [r for r in all_reports() if r['kind'] == 'json' and r['others'] and 'failed' not in r['others'][:1]]
+    out = []
+    for i in range(n):
+        n_bench = rng.randint(3, 7)
+        inv = rng.randint(1, 2)
+        total = n_bench * inv
+        out.append({'kind': 'parallel', 'report': rng.choice(reps), 'path': 'interrupt' if i % 4 != 3 else 'ok',
+                    'profiling': False, 'no_denoise': False, 'env': rng.choice(ENVS), 'cset': None,
+                    'num_cores': rng.choice([2, 4, 64]), 'cpu_count': rng.choice([5, 8, 10]),
+                    'n_bench': n_bench, 'invocations': inv, 'at': rng.randint(1, total)})
+    return out
+
+
+def canon_abort(trace, p):
+    """the order in which the running processes are killed is the order in which the worker
+    threads registered them, which the log cannot see: sort the block between the interrupt
+    (after `p` body events) and restore"""
+    if p is None or not any(t['t'] == 'restore' for t in trace):
+        return trace
+    ri = max(i for i, t in enumerate(trace) if t['t'] == 'restore')
+    block = sorted(trace[1 + p:ri], key=lambda t: (t['i'], t['t'] == 'stop'))
+    return trace[:1 + p] + block + trace[ri:]
+
+
+def check_parallel(ck, scenarios):
+    import signal
+    import threading
+    import time
+    ops, recs = [], []
+    for sc in scenarios:
+        _counter[0] += 1
+        wd = os.path.join(ck.scratch, 'p%d' % _counter[0])
+        os.makedirs(wd)
+        cfg = {'default_experiment': 'T', 'default_data_file': 't.data',
+               'runs': {'invocations': sc['invocations'], 'min_iteration_time': 0, 'execute_exclusively': False},
+               'benchmark_suites': {'S': {'gauge_adapter': 'RebenchLog', 'command': 'h %(benchmark)s %(invocation)s',
+                                          'benchmarks': ['B%d' % j for j in range(sc['n_bench'])]}},
+               'executors': {'E': {'path': '.', 'executable': 'exe'}},
+               'experiments': {'T': {'suites': ['S'], 'executions': ['E']}}}
+        if sc['env']:
+            cfg['runs']['env'] = dict(sc['env'])
+        conf = drive.write_config(wd, cfg)
+        state = {'k': 0}
+        lock = threading.Lock()
+
+        def script(rec, sc=sc, state=state, lock=lock):
+            with lock:
+                state['k'] += 1
+                k = state['k']
+            o = drive.Outcome(0, 'B: iterations=1 runtime: 5ms\n')
+            o.delay = 0.04 + 0.01 * (k % 3)
+            if sc['path'] == 'interrupt' and k == sc['at']:
+                def fire():
+                    time.sleep(0.015)
+                    os.kill(os.getpid(), signal.SIGINT)     # Ctrl-C: delivered to the main thread
+                threading.Thread(target=fire).start()
+            return o
+        res, events, left = dd.run_parallel_session(wd, [conf], script, sc['report'], cpu_count=sc['cpu_count'],
+                                                    num_cores=sc['num_cores'])
+        ck.impl_traces += 1
+        ending = ending_of(res) if res.exit != 4 else 'crash'
+        inp = dict(sc)
+        ck.count('parallel:%s->%s' % (sc['path'], ending))
+        if left:
+            raise lib.InfraError('worker threads still alive: %s' % left)
+        trace = []
+        for e in events:
+            if e[0] == 'sudo':
+                if e[1] == 'minimize':
+                    trace.append({'t': 'minimize', 'profiling': '--for-profiling' in e[2]})
+                elif e[1] == 'restore':
+                    trace.append({'t': 'restore', 'without_shielding': '--without-shielding' in e[2],
+                                  'without_nice': '--without-nice' in e[2]})
+                elif e[1] == 'kill':
+                    trace.append({'t': 'kill', 'i': e[4] if e[4] is not None else 0})
+            elif e[0] == 'start':
+                trace.append({'t': 'start', 'i': e[1]})
+            elif e[0] == 'stop':
+                trace.append({'t': 'stop', 'i': e[1], 'how': e[2]})
+        sudo = [(e[1], e[2]) for e in events if e[0] == 'sudo']
+        trace_oracle(ck, inp, sc, trace, sudo, ending, sc['num_cores'])
+        if sc['path'] == 'interrupt' and ending != 'interrupt':
+            ck.count('parallel:interrupt-after-all-work')
+        # ---- model: the observed global order of the workers' events and where the interrupt fell
+        body = [t for t in trace if t['t'] in ('start', 'stop', 'kill')]
+        interrupted = ending == 'interrupt'
+        p = None
+        if interrupted:
+            p = 0
+            for t in trace[1:]:
+                if t['t'] in ('restore', 'kill') or (t['t'] == 'stop' and t.get('how') == 'killed'):
+                    break
+                p += 1
+        g = [{'t': t['t'], 'i': t['i']} for t in body]
+        op = {'op': 'c20.par_session', 'profiling': False, 'report': sc['report'], 'events': g[:p] if interrupted else g,
+              'ending': ending, 'pinned': False}
+        if interrupted:
+            op['interrupt_at'] = p
+        ops.append(op)
+        recs.append((inp, canon_abort([dict((k, v) for k, v in t.items() if k != 'how') for t in trace], p), ending, p))
+        ck.case(nontrivial_key=('par', json.dumps(sc, sort_keys=True)),
+                sample={'parallel': sc['path'], 'trace': [t['t'] for t in trace]} if _counter[0] % 10 == 0 else None)
+    for (inp, trace, ending, p), ans in zip(recs, ck.model(ops)):
+        if canon_abort(ans.get('trace', []), p) != trace or ans.get('ending') != ending:
+            ck.disagree('c20.par_session: parallel scheduler, sudo calls / process events vs RB.Denoise.parSession',
+                        inp, {'trace': trace, 'ending': ending}, ans, TH_PAR)
+
+
 def gen_scenarios(ck, quick):
     rng = ck.rng
     out = []
@@ -463,6 +576,9 @@ def dispatch(ck, inputs):
     sess = [i for i in inputs if i['kind'] == 'session']
     for i in range(0, len(sess), 120):
         check_sessions(ck, sess[i:i + 120])
+    pa = [i for i in inputs if i['kind'] == 'parallel']
+    if pa:
+        check_parallel(ck, pa)
     cl = [i for i in inputs if i['kind'] == 'cli']
     if cl:
         check_cli(ck, cl)
@@ -484,10 +600,12 @@ def run(ck):
                '_shield_lower_bound/_shield_upper_bound for every n in 1..4096')
     ck.assumptions = ['sudo and denoise.py are never executed: `subprocess` inside rebench.denoise_client and the Popen of '
                       'the process layer are scripted; what `denoise.py` itself does to the system is out of scope',
-                      'sequential scheduler (with the parallel scheduler an interrupt reaches only the main thread)']
+                      'parallel scheduler: modelled by the observed global order of the worker events and the '
+                      'interrupt position']
     ck.exhaustive = True
     dispatch(ck, load_corpus())
     dispatch(ck, gen_scenarios(ck, quick))
+    dispatch(ck, gen_parallel_scenarios(ck, 16 if quick else 120))
     check_shield(ck, 4096)
     if not quick:
         for _ in range(3):
